@@ -622,6 +622,11 @@ def model_shard(spec, rec):
         if exercised:
             rec.count("models_exercised")
             rec.observe("models_exercised", qual)
+        try:
+            embedded(rec, i, qual, short, recipe, rng, tier, limit)
+        except CallTimeout as exc:
+            rec.observe("skipped_models", f"{qual} (driven by the pipeline seed alone): {exc}")
+            rec.count("model_timeouts")
         flush_leaks(rec, {"function": qual}, i)
     rec.count("recorder_helper_seed_calls", MON.helper_seed_calls)
     rec.count("recorder_helper_set_state_calls", MON.helper_set_state_calls)
@@ -748,6 +753,96 @@ def contract(rec, index, qual, short, fn, recipe, seeds, rng, tier, limit) -> bo
         if tier == "quick" and recipe.get("cost") == "heavy":
             break
     return ok_any
+
+
+# =============================================================================== (1b) every model x option under the pipeline seed alone
+def embedded_pipeline(qual, variant, tmp):
+    """A pipeline whose only stochastic model is `qual` with the arguments of the recipe variant and NO seed argument:
+    deterministic feeders fill the buckets the model reads, deterministic followers carry its output to the image."""
+    P = "pyxel.models."
+    group = qual.split(".")[2]
+    shape = variant.get("shape", (6, 5))
+    kwargs = dict(variant["kwargs"])
+    kwargs.pop("seed", None)
+    for arg, what in (variant.get("files") or {}).items():
+        kwargs[arg] = data_file(what, tmp, shape)
+    pspec = {"photon_collection": [{"name": "illumination", "func": P + "photon_collection.illumination", "arguments": {"level": 500.0}}],
+             "charge_generation": [{"name": "conversion", "func": P + "charge_generation.simple_conversion",
+                                    "arguments": {"binomial_sampling": False}}],
+             "charge_collection": [{"name": "collection", "func": P + "charge_collection.simple_collection", "arguments": {}}],
+             "charge_measurement": [{"name": "measurement", "func": P + "charge_measurement.simple_measurement", "arguments": {}}],
+             "readout_electronics": [{"name": "adc", "func": P + "readout_electronics.simple_adc", "arguments": {}}]}
+    model = {"name": "under_test", "func": qual, "arguments": kwargs}
+    if group == "charge_generation" and "photon" in variant["buckets"]:
+        pspec[group] = [model]          # the model under test is itself the photon -> charge conversion
+    else:
+        pspec.setdefault(group, []).append(model)
+    return {g: pspec[g] for g in build.GROUPS if g in pspec}
+
+
+def embedded(rec, index, qual, short, recipe, rng, tier, limit):
+    """Statement, first sentence, for the smallest pipelines: for every seed-taking model and every stochastic option
+    of the recipe table, an exposure whose randomness comes from this one model, which has no seed of its own, is run
+    with a pipeline seed from different prior generator states -- bit-identical results, generator restored."""
+    import pyxel
+    from pyxel.exposure import Exposure, Readout
+    heavy = recipe.get("cost") == "heavy"
+    for variant in recipe["variants"][: 1 if (heavy and tier == "quick") else None]:
+        label = variant["label"]
+        shape = variant.get("shape", (6, 5))
+        dspec = build.default_detector_spec(variant["kind"], shape[0], shape[1])
+        if variant.get("temperature") is not None:
+            dspec["environment"]["temperature"] = float(variant["temperature"])
+        times = [1.0] if (heavy and tier == "quick") else rng.choice([[1.0], [1.0, 2.5], [0.5, 1.0, 2.0]])
+        pseed = rng.choice([0, rng.randint(1, 2**32 - 1), rng.randint(1, 99999)])
+        other = rng.choice([s for s in (0, rng.randint(1, 2**32 - 1), rng.randint(1, 99999)) if s != pseed])
+        try:
+            pspec = embedded_pipeline(qual, variant, rec.tmp)
+        except Exception as exc:  # noqa: BLE001 - the harness could not build the inputs
+            rec.count("embedded_refused")
+            rec.observe("embedded_refused", f"{short}[{label}]: inputs could not be prepared ({type(exc).__name__})")
+            continue
+        case = {"mode": "exposure", "pipeline": pspec, "kind": variant["kind"], "rows": shape[0], "cols": shape[1],
+                "temperature": dspec["environment"]["temperature"], "times": times, "pipeline_seed": pseed,
+                "function": qual, "variant": label}
+        repeats = 2 if tier == "quick" else 3
+        outs = []
+        for rep, seed_ in enumerate([pseed] * repeats + [other]):
+            set_prior(rep + rng.randint(0, 2), rng.randint(0, 2**31))
+            before = np.random.get_state()
+            try:
+                with time_limit(limit):
+                    tree = pyxel.run_mode(mode=Exposure(readout=Readout(times=list(times), non_destructive=False), pipeline_seed=seed_),
+                                          detector=build.make_detector(dspec), pipeline=build.make_pipeline(pspec),
+                                          with_inherited_coords=True)
+                    arrays = tree_arrays(tree)
+            except CallTimeout:
+                raise
+            except Exception as exc:  # noqa: BLE001 - the model (or a follower) refuses this embedding: counted, state still checked
+                rec.count("embedded_refused")
+                rec.observe("embedded_refused", f"{short}[{label}]: {type(exc).__name__}: {str(exc).splitlines()[0][:100] if str(exc) else ''}")
+                check_state(rec, "exposure", before, np.random.get_state(),
+                            f"exposure of a pipeline with {short}[{label}] raised {type(exc).__name__}", case, index)
+                outs = []
+                break
+            check_state(rec, "exposure", before, np.random.get_state(), f"exposure of a pipeline with {short}[{label}] #{rep}", case, index)
+            outs.append(arrays)
+        if not outs:
+            continue
+        for again in outs[1:repeats]:
+            rec.count("embedded_pairs")
+            d = dict_diff(outs[0], again)
+            if d:
+                report(rec, f"C04:pipeline-seed-only:{short}:not-reproducible",
+                       f"'{d}' differs between two exposures (pipeline_seed={pseed}, {len(times)} readouts) of a pipeline whose only "
+                       f"stochastic model is {qual} ({label}: {repr(pspec[qual.split('.')[2]][-1]['arguments'])[:200]}) without a seed "
+                       f"argument of its own: the pipeline seed does not control all of the model's randomness", case, index)
+        sensitive = dict_diff(outs[0], outs[-1]) is not None
+        if not sensitive:
+            rec.observe("embedded_seed_insensitive", f"{short}[{label}]")
+        rec.observe("embedded_models", short)
+        rec.case(("embedded", qual, label, pseed, times), sensitive,
+                 sample={"mode": "exposure", "only_stochastic_model": qual, "variant": label, "pipeline_seed": pseed, "times": times})
 
 
 # =============================================================================== (2) mode level
@@ -1087,7 +1182,13 @@ def run_calibration(cfg, pspec, tmp, want_simulated):
     return out
 
 
-def calibration_case(rec, index, rng, tier):
+def seed_class(rng, upper, forced_zero=False):
+    """A seed drawn from the classes of the documented range [0, upper]: the two boundaries, small, anywhere."""
+    drawn = rng.choice([0, upper, rng.randint(1, 9999), rng.randint(0, upper), rng.randint(0, upper)])
+    return 0 if forced_zero else drawn
+
+
+def calibration_case(rec, index, rng, tier, stratum=0):
     rows, cols = rng.randint(3, 5), rng.randint(3, 5)
     target = os.path.join(rec.tmp, f"target_{index}.npy")
     result_type = rng.choice(["pixel", "signal"])
@@ -1095,7 +1196,11 @@ def calibration_case(rec, index, rng, tier):
     np.save(target, (200.0 + 40.0 * np.random.default_rng(index).random((rows, cols))) * scale)
     cfg = {"rows": rows, "cols": cols, "target": target, "result_type": result_type, "two_params": rng.random() < 0.5,
            "algorithm": rng.choice(["sade", "sade", "sga"]), "generations": rng.randint(1, 2), "islands": rng.choice([1, 2, 2, 3]),
-           "evolutions": rng.choice([1, 2]), "pygmo_seed": rng.randint(0, 100000), "pipeline_seed": rng.choice([0, rng.randint(1, 2**32 - 1), rng.randint(1, 9999)])}
+           "evolutions": rng.choice([1, 2]),
+           # both seeds of the mode are quantified over their whole documented range; the boundary value 0 (a valid seed
+           # that is falsy) is a stratum of its own: (index + shard stratum) % 3 == 0 -> optimiser seed 0, == 1 -> pipeline seed 0
+           "pygmo_seed": seed_class(rng, 100000, forced_zero=(index + stratum) % 3 == 0),
+           "pipeline_seed": seed_class(rng, 2**32 - 1, forced_zero=(index + stratum) % 3 == 1)}
     case = {"mode": "calibration", **{k: v for k, v in cfg.items() if k != "target"}}
     pspec = calibration_pipeline(rng)
     want_sim = rng.random() < 0.5
@@ -1137,6 +1242,12 @@ def calibration_case(rec, index, rng, tier):
                    f"({outs[0][d].ravel()[:3]} vs {outs[1][d].ravel()[:3]})", case, index)
     rec.observe("calibration_variables", sorted(outs[0]))
     rec.observe("calibration_islands", cfg["islands"])
+    rec.observe("calibration_seed_classes", f"pygmo:{'zero' if cfg['pygmo_seed'] == 0 else 'upper' if cfg['pygmo_seed'] == 100000 else 'inner'}")
+    rec.observe("calibration_seed_classes", f"pipeline:{'zero' if cfg['pipeline_seed'] == 0 else 'upper' if cfg['pipeline_seed'] == 2**32 - 1 else 'inner'}")
+    if cfg["pygmo_seed"] == 0:
+        rec.count("calibration_pygmo_seed_zero_pairs")
+    if cfg["pipeline_seed"] == 0:
+        rec.count("calibration_pipeline_seed_zero_pairs")
     rec.case(("calibration", cfg["pygmo_seed"], cfg["pipeline_seed"], cfg["islands"], cfg["algorithm"], cfg["evolutions"]), True,
              sample=case)
 
@@ -1147,7 +1258,10 @@ def mode_shard(spec, rec):
     for i in range(spec["n"]):
         if not rec.wanted(i):
             continue
-        fn(rec, i, rec.rng(i), spec["tier"])
+        if spec["kind"] == "calibration":
+            fn(rec, i, rec.rng(i), spec["tier"], stratum=int(spec.get("stratum", 0)))
+        else:
+            fn(rec, i, rec.rng(i), spec["tier"])
         flush_leaks(rec, {"mode": spec["kind"], "index": i}, i)
     rec.count("recorder_helper_seed_calls", MON.helper_seed_calls)
     rec.count("recorder_helper_set_state_calls", MON.helper_set_state_calls)
@@ -1291,7 +1405,7 @@ def plan(tier, seed):
         specs.append({"shard": p, "seed": seed, "kind": "models", "part": p, "of": parts, "n": 0, "tier": tier})
     specs += [{"shard": 7 + s, "seed": seed, "kind": "exposure", "n": 6 if q else 150, "tier": tier} for s in range(2)]
     specs += [{"shard": 9 + s, "seed": seed, "kind": "observation", "n": 2 if q else 30, "tier": tier} for s in range(3)]
-    specs += [{"shard": 12 + s, "seed": seed, "kind": "calibration", "n": 1 if q else 14, "tier": tier} for s in range(3)]
+    specs += [{"shard": 12 + s, "seed": seed, "kind": "calibration", "n": 1 if q else 14, "tier": tier, "stratum": s} for s in range(3)]
     return specs
 
 
